@@ -886,22 +886,24 @@ def run_static_flag(tier, log, seed):
             continue
         fn = cands[0]
         aggs = [s for b in fn.blocks.values() for s in b.stmts if re.search(r"= CallInputs \{", s)]
-        if len(aggs) != 1:
-            inconcl.append(f"{fname}: expected one CallInputs construction, found {len(aggs)}")
+        term, why = "unk", "CallInputs is not built in this function (moved into a helper?)"
+        if len(aggs) > 1:
+            inconcl.append(f"{fname}: {len(aggs)} CallInputs constructions")
             continue
-        m = re.search(r"is_static: ([^,}]+)", aggs[0])
-        op = m.group(1).strip()
-        term, why = "unk", op
-        if op in ("const true", "const false"):
-            term, why = op[6:], "literal " + op[6:]
-        else:
-            mm = re.match(r"^(?:move|copy) (_\d+)$", op)
-            if mm:
-                ds = defs_of(fn, mm.group(1))
-                if len(ds) == 1 and re.match(r"^copy \(\(\*_1\)\.%d: bool\)$" % idx, ds[0]):
-                    term, why = "parent", "interpreter.is_static"
-                else:
-                    why = f"{ds}"
+        if len(aggs) == 1:
+            m = re.search(r"is_static: ([^,}]+)", aggs[0])
+            op = m.group(1).strip()
+            why = op
+            if op in ("const true", "const false"):
+                term, why = op[6:], "literal " + op[6:]
+            else:
+                mm = re.match(r"^(?:move|copy) (_\d+)$", op)
+                if mm:
+                    ds = defs_of(fn, mm.group(1))
+                    if len(ds) == 1 and re.match(r"^copy \(\(\*_1\)\.%d: bool\)$" % idx, ds[0]):
+                        term, why = "parent", "interpreter.is_static"
+                    else:
+                        why = f"{ds}"
         want = "true" if forced else "parent"
         v, model, detail = duo.check(["(declare-const parent Bool)", "(declare-const unk Bool)"], [f"(not (= {term} {want}))"], want_model_of=("parent",))
         samples.append(f"{fname}: CallInputs.is_static = {why}; required {'true' if forced else 'the parent frame flag'} -> {v}")
@@ -911,15 +913,27 @@ def run_static_flag(tier, log, seed):
         if v != "sat":
             inconcl.append(f"{fname}: {detail}")
             continue
-        parent = "true" in model
-        st, out = native.call("debug", "call_flag", fname, "true" if parent else "false", log=log)
         desc = f"{fname}: the child frame's static flag is {why}, not {'true' if forced else 'inherited from the parent'}"
-        if st == "ok" and out.startswith("child_static="):
-            child = out.split("=")[1] == "true"
-            expect = True if forced else parent
-            failures.append(dict(id=f"{fname}-static-flag", reproduced=(child != expect), description=desc + f" | native: parent static={parent} -> child static={child}"))
+        # the solver's candidate parent value first; when the construction was not understood both values are candidates
+        cand = ["true" in model] + ([not ("true" in model)] if term == "unk" else [])
+        hit = None
+        err = None
+        for parent in cand:
+            st, out = native.call("debug", "call_flag", fname, "true" if parent else "false", log=log)
+            if st == "ok" and out.startswith("child_static="):
+                child = out.split("=")[1] == "true"
+                expect = True if forced else parent
+                if child != expect:
+                    hit = f"parent static={parent} -> child static={child}"
+                    break
+            else:
+                err = f"{st} {out}"
+        if hit:
+            failures.append(dict(id=f"{fname}-static-flag", reproduced=True, description=desc + " | native: " + hit))
+        elif err:
+            inconcl.append(f"{fname}: native scenario failed: {err}")
         else:
-            inconcl.append(f"{fname}: native scenario failed: {st} {out}")
+            failures.append(dict(id=f"{fname}-static-flag", reproduced=False, description=desc + " | native: flag correct for every candidate parent value"))
     q, tm = duo.queries, duo.time
     duo.close()
     res = dict(queries=q, solver_s=tm, engine="mir aggregate/dataflow scan -> smtlib (z3 4.8.12 + cvc5 1.0)", bounds="; ".join(samples),
